@@ -72,7 +72,7 @@ def rand_Clifford_group(n:int, seed=None):
     '''
     assert n>=1
     rng = get_random_rng(seed)
-    cli_r = rand_F2(2*n)
+    cli_r = rand_F2(2*n, seed=rng.randint(0, 2**32-1))
     cli_mat = rand_SpF2(n, seed=rng.randint(0, 2**32-1))
     return cli_r, cli_mat
 
